@@ -20,6 +20,8 @@
    (round / slot windows, message-count limits and "already advanced" are in the `ignore` class.)
    NoHonestReject says no order of arrival makes a correct peer's gate reject a message in `sent`.             *)
 EXTENDS QBFT
+CONSTANT Lossy    \* TRUE: a message may miss its round at some recipients (late or lost); every message is still
+                  \* seen by the gates inside its window.  FALSE: the strict timely class of the property.
 VARIABLES gr, due
 tvars == <<st, sent, byzUsed, act, gr, due>>
 tview == <<st, sent, byzUsed, gr, due>>
@@ -51,7 +53,7 @@ TDeliver(i) ==
     /\ UNCHANGED <<gr, due>>
 (* the deadline of round gr passes *)
 EndRound ==
-    /\ AllStarted /\ ~Pending /\ due = {}
+    /\ AllStarted /\ (Lossy \/ ~Pending) /\ due = {}
     /\ gr < MaxRound
     /\ \E i \in Honest : ~st[i].decided
     /\ gr' = gr + 1
